@@ -158,9 +158,18 @@ def check_history (c):
                 ops.append (('far', [float (rng.choice ([0, 10])), float (rng.choice ([20, 45])), int (rng.integers (2, 5))]
                                   , [0.0, float (rng.choice ([45, 90])), int (rng.integers (1, 4))]
                                   , None if rng.random () < 0.5 else float (10 ** rng.uniform (-2, 3)), float (rng.choice ([0, 0, 100.0]))))
+                if (c ['i'] + k) % 2 == 0:
+                    # the same directions again: with a distance, with another distance, with and without a power level
+                    o = ops [-1]
+                    for dd in ([1000.0, 30.0, 0] [: 1 + (c ['i'] + k) % 3]):
+                        ops.append (('far', o [1], o [2], (None if rng.random () < 0.5 else float (10 ** rng.uniform (-2, 3))), dd))
             elif u < 0.7:
                 st = [float (x) for x in (rng.uniform (1.5, 4, 3) * lam * np.array ([1, 1, 1]))]
                 ops.append (('near', st, [0.1 * lam] * 3, [2, 1, int (rng.integers (1, 3))], None if rng.random () < 0.5 else float (10 ** rng.uniform (-2, 3))))
+                if (c ['i'] + k) % 2:
+                    # the same points (or a grid that shares some of them) again at another power level
+                    o = ops [-1]
+                    ops.append (('near', o [1], o [2], [o [3][0], 1, 1] if (c ['i'] + k) % 4 == 1 else o [3], float (10 ** rng.uniform (-2, 3)) if o [4] is None or rng.random () < 0.7 else None))
             elif u < 0.85:
                 # computing twice, three times, four times at the same frequency
                 for r in range (1 + (c ['i'] + k) % 3):
